@@ -79,6 +79,8 @@ THEOREMS = [
     'C17_tr_arity_error_class',
     'C17_fill_transformation_length',
     'C17_lattice_transformation_length',
+    'C17_reads_c06_ranges_linked',
+    'C17_fill_array_surplus_linked',
     'C17_finished_run_is_clean',
 ]
 TRUSTED = [
